@@ -62,5 +62,10 @@ Spec == Init /\ [][Next]_row
 Accepted ==
   /\ TLCGet("stats").distinct > 0
   /\ (CheckDecls => \A n \in MissingDecls : PrintT(<<"BAD", ToJson([i |-> 0, why |-> "documented export missing from std: " \o n])>>))
+  \* distinct (export, arguments) pairs for which the documentation fixes the result
+  /\ PrintT(<<"NONTRIVIAL", ToJson([n |-> Cardinality(
+        {ToJson(<<Rec[i].name, Rec[i].args>>) :
+           i \in {j \in 1..N : /\ Rec[j].ev = "call" /\ Rec[j].name \in ExportNames
+                                /\ Pred(Rec[j].name, [a \in 1..Len(Rec[j].args) |-> ValOfWire(Rec[j].args[a])]).k # "type"}})])>>)
   /\ PrintT(<<"TRACE", N>>)
 =============================================================================
